@@ -408,17 +408,17 @@ class ASTSchemaPrinter:
     def print_schema_definition(self, schema: Schema) -> str:
         directives = self.print_directives(schema)
 
+        def is_implied(root_type: Any, default_name: str) -> bool:
+            # Without a schema block, a type with the default name IS the root.
+            if root_type is None:
+                return default_name not in schema.types
+            return bool(root_type.name == default_name)
+
         if (
             not directives
-            and (not schema.query_type or schema.query_type.name == "Query")
-            and (
-                not schema.mutation_type
-                or schema.mutation_type.name == "Mutation"
-            )
-            and (
-                not schema.subscription_type
-                or schema.subscription_type.name == "Subscription"
-            )
+            and is_implied(schema.query_type, "Query")
+            and is_implied(schema.mutation_type, "Mutation")
+            and is_implied(schema.subscription_type, "Subscription")
         ):
             return ""
 
